@@ -336,7 +336,8 @@ def c16_steps(tier):
     if tier == "quick":
         return [http_live("framing_1x1", "framing", ["--socket_workers", "1", "--swarm_workers", "1", "--requests", "1500"]),
                 http_live("framing_2x3", "framing", ["--socket_workers", "2", "--swarm_workers", "3", "--requests", "1500", "--max_peers", "50"]),
-                http_live("framing_3x2_close", "framing", ["--socket_workers", "3", "--swarm_workers", "2", "--requests", "1500", "--no_keep_alive"])]
+                http_live("framing_3x2_close", "framing", ["--socket_workers", "3", "--swarm_workers", "2", "--requests", "1500", "--no_keep_alive"]),
+                http_live("keepalive_2x1", "keepalive", ["--socket_workers", "2", "--swarm_workers", "1", "--rounds", "4"])]
     out = []
     for s in (1, 2, 3):
         for w in (1, 2, 3):
@@ -344,6 +345,8 @@ def c16_steps(tier):
                 out.append(http_live("framing_%dx%d_%s" % (s, w, "ka" if ka else "close"), "framing",
                                      ["--socket_workers", str(s), "--swarm_workers", str(w), "--requests", "12000", "--rounds", "40", "--max_peers", "50" if (s + w) % 2 else "5", "--max_scrape", "3" if w != 2 else "100"] + ([] if ka else ["--no_keep_alive"])))
     out.append(http_live("corpus_2x2", "corpus", ["--socket_workers", "2", "--swarm_workers", "2", "--cases", "3000"]))
+    for (s, idle, interval) in ((1, 4, 3), (2, 4, 3), (3, 6, 2), (2, 2, 4), (1, 30, 2)):
+        out.append(http_live("keepalive_%dx1_idle%d_int%d" % (s, idle, interval), "keepalive", ["--socket_workers", str(s), "--swarm_workers", "1", "--rounds", "8", "--idle", str(idle), "--interval", str(interval)]))
     return out
 
 
@@ -356,7 +359,7 @@ PLANS["C16"] = {
     "parallel": 4,
     "steps": lambda tier, seed: c16_steps(tier),
     "min_evaluations": {"quick": 1500, "thorough": 20000},
-    "assumptions": ["TLS, pipelining and reverse-proxy mode (C03) are out of scope here", "mock clock frozen: no expiry during a run"],
+    "assumptions": ["TLS, pipelining and reverse-proxy mode (C03) are out of scope here", "mock clock frozen: no expiry during a run (except the keepalive scenario, which moves it)", "a kept-alive connection may be closed by the tracker only after max_connection_idle seconds of its own clock without a request"],
     "level_text": "Exploration on the live tracker: for socket_workers x swarm_workers in {1,2,3}^2 and keep-alive on/off (three configurations in quick, all eighteen in thorough) five actors (IPv4 hosts through the plain and the dual-stack listener, ::1) send announces (all events, numwant absent/0/n, unknown keys) and scrapes (hashes on one / several / all swarm workers, repeated, beyond max_scrape_torrents) over kept-alive or fresh connections, a third of them split across TCP segments with the cut walking over every byte; every reply must be one HTTP/1.1 200 response whose Content-Length equals the bytes that follow and whose body is one complete canonical bencode value equal to the reference tracker's reply, while hostile connections (garbage, 2049-byte requests, bad escapes, POST, never-completed requests) come and go; then 8 connections run concurrently and each torrent's history must be linearizable.",
     "level_note": "Trusted: framing monitor, strict bencode decoder, reference model, linearizability checker.",
     "design_ref": "3/C16",
